@@ -1,0 +1,39 @@
+//go:build verif
+
+// Verification contracts for package metadata, property C22 (different topics never share storage or
+// metadata keys). Comment-only; read by /verif/govc. The key specs (c22OffsetKey, ...) and the lemmas about
+// them are in /verif/spec/topickeys.spec.
+
+package metadata
+
+// ---- which topic names are accepted (topic creation and auto-creation both end in Store.CreateTopic) ----
+
+//@ func (s *InMemoryStore) CreateTopic
+//@   ensures [C22.accepted_names_safe] result1 == nil ==> c22SafeTopic(spec.Name)
+//@
+//@ func (s *EtcdStore) CreateTopic
+//@   requires s.metadata != nil
+//@   ensures [C22.etcd_accepted_names_safe] result1 == nil ==> c22SafeTopic(spec.Name)
+
+// ---- every key builder returns exactly the specified key ----
+
+//@ func offsetKey
+//@   ensures [C22.shape.offsetKey] result == c22OffsetKey(topic, fmtd(partition))
+//@ func consumerOffsetKey
+//@   ensures [C22.shape.consumerOffsetKey] result == c22ConsumerOffsetKey(group, topic, fmtd(partition))
+//@ func TopicConfigKey
+//@   ensures [C22.shape.TopicConfigKey] result == c22TopicConfigKey(topic)
+//@ func PartitionStateKey
+//@   ensures [C22.shape.PartitionStateKey] result == c22PartitionStateKey(topic, fmtd(partition))
+//@ func ConsumerOffsetKey
+//@   ensures [C22.shape.ConsumerOffsetKey] result == c22ConsumerOffsetKey(groupID, topic, fmtd(partition))
+//@ func PartitionAssignmentKey
+//@   ensures [C22.shape.PartitionAssignmentKey] result == c22AssignmentKey(topic, fmtd(partition))
+//@ func partitionLeaseKey
+//@   ensures [C22.shape.partitionLeaseKey] result == c22LeaseKey(topic, fmtd(partition))
+//@ func partitionResourceID
+//@   ensures [C22.shape.partitionResourceID] result == c22ResourceID(topic, fmtd(partition))
+//@ func partitionKey
+//@   ensures [C22.shape.partitionKey] result == c22PartitionKey(topic, fmtd(partition))
+//@ func consumerKey
+//@   ensures [C22.shape.consumerKey] result == c22ConsumerKey(group, topic, fmtd(partition))
